@@ -34,4 +34,4 @@ def preflight(tier):
 
 
 def conditions(tier, seed, active):
-    return tp.gen_conditions(__name__, "single", tier, seed)
+    return tp.gen_conditions(__name__, "single", tier, seed, rate={"T3": 0.08}, pairs_quick=20)
